@@ -361,6 +361,20 @@ def impl(job):
 def run(ctx):
     rng = ctx.rng
     quick = ctx.tier == "quick"
+    # the grammar's character classes, read from the grammar text of the tree under test, against the model's predicates
+    import c17_grammar
+    from common import zlit
+    cls_src, cls_tab, cls_err = None, None, None
+    try:
+        cls_src, cls_tab = c17_grammar.classes()
+    except Exception as ex:  # noqa
+        cls_err = type(ex).__name__ + ": " + str(ex)[:200]
+    cls_bad = []
+    if cls_tab is not None:
+        bl = lambda k: listlit(cls_tab[k], blit)
+        lit = (f"mkCls {listlit(c17_grammar.CODES, zlit)} {bl('header')} {bl('header_quoted')} {bl('variable')} {bl('reference')} "
+               f"{bl('function_first')} {bl('function_rest')} {bl('ws')}")
+        cls_bad = sorted(coq_bad(ctx, "c17k", "Csv.CsvModel Data.DataModel Match.Syntax Harness.C17Cmp", "c17cls", [lit], ["c17_classes_agree"], chunk=10)["c17_classes_agree"])
     jobs = []
     for i in range(500 if quick else 20000):
         g = T(rng)
@@ -392,6 +406,10 @@ def run(ctx):
     elif run_bad:
         ctx.violation("runs", {"what": "two layouts of the same component tree gave different run results (lines, variables, counters, stop flag, error count)", "case": case(run_bad[0]),
                                "failures": len(run_bad)})
+    elif cls_err or cls_bad:
+        ctx.violation("correspondence", {"what": "the character classes of the match grammar's name terminals (read from LarkParser.GRAMMAR) no longer equal the model's "
+                                                 "(Match/Syntax.v idc / hqc / is_letter / wsc; Harness/C17Cmp.c17_classes_agree); theorems C17_* are about the model only",
+                                         "disagreeing_case": {"grammar_classes": cls_src, "error": cls_err}}, no_input=True)
     elif agree_bad:
         ctx.violation("correspondence", {"what": "correspondence Match/Syntax.v (lexer + parser) vs Lark grammar + LarkTransformer no longer checks (Harness/C17Cmp.c17_agree); theorems C17_* are about the model only",
                                          "disagreeing_case": case(agree_bad[0])}, no_input=True)
@@ -403,6 +421,7 @@ def run(ctx):
                 "assignment actions, nesting depth <= 4; each rendered canonically and in 2 random layouts (spaces, tabs, newlines, zero-width where tokens cannot fuse, '~...~' comments between "
                 "components) with optional outer comments without mode settings. Non-trivial = distinct trees with >= 2 components.",
         "samples": [case(0)],
+        "grammar_classes_from_source": cls_src, "grammar_class_code_points": len(c17_grammar.CODES),
         "trees": len(jobs), "layouts": len(jobs) * 3, "runs_compared_across_layouts": runs_compared, "runs_raising": sum(1 for o in res for r in o["runs"] if "raised" in r), "parse_failures_or_ambiguous": sum(1 for o in res for t in o["trees"] if t is None),
         "traces_validated_against_impl": len(jobs) - len(agree_bad),
         "correspondence": f"model parser == real parser on {len(jobs) - len(agree_bad)}/{len(jobs)} trees (x3 layouts); tree == tree written on {len(jobs) - len(spec_bad)}/{len(jobs)}",
